@@ -57,7 +57,15 @@ type job struct {
 	Out      string
 }
 
+type compResult struct {
+	Li, Si int
+	Dir    string
+	Raw    rawDump
+	Ref    map[string][]string
+}
+
 type result struct {
+	Comp     []compResult // phase "compile"
 	Cnt      counters
 	Failures []failureGob
 	Offers   []rawStateGob
@@ -123,6 +131,9 @@ func (w *world) run(phase string, total int, f *findings, b *bfs, extra func(*jo
 	base.Comp = make([][]compGob, len(w.comp))
 	for li := range w.comp {
 		for _, c := range w.comp[li] {
+			if phase == "compile" {
+				break // nothing compiled yet: that is this phase's job
+			}
 			base.Comp[li] = append(base.Comp[li], compGob{c.dir, c.raw})
 		}
 	}
@@ -165,6 +176,9 @@ func (w *world) run(phase string, total int, f *findings, b *bfs, extra func(*jo
 		os.Remove(out)
 		os.Remove(filepath.Join(w.scratch, fmt.Sprintf("job-%s-%d.gob", phase, k)))
 		cnt.merge(&res.Cnt)
+		if w.onResult != nil {
+			w.onResult(&res)
+		}
 		for _, g := range res.Failures {
 			f.add(&failure{kind: g.Kind, sub: g.Sub, li: g.Li, path: g.Path, detail: g.Detail, diffs: g.Diffs, how: g.How})
 		}
@@ -225,6 +239,20 @@ func childMain(r *vlib.Run, jobFile string) {
 		defer pprof.StopCPUProfile()
 	}
 	w.states = buildStates(r, j.Fams)
+	if j.Phase == "compile" {
+		w.compileAll()
+		res := result{Cnt: cnt}
+		for li := range w.comp {
+			for si, c := range w.comp[li] {
+				if c != nil {
+					res.Comp = append(res.Comp, compResult{li, si, c.dir, c.raw, c.ref})
+				}
+			}
+		}
+		writeGob(j.Out, &res)
+		pprof.StopCPUProfile()
+		os.Exit(0)
+	}
 	w.comp = make([][]*compiled, len(j.Comp))
 	for li := range j.Comp {
 		if len(j.Comp[li]) != len(w.states) {
